@@ -375,3 +375,66 @@ def gen_convert(kind, restrict_to=None):
     lines.append(";\n".join(f"  ({ci}, {co}, {term(n)})" for ci, co, _, _, n in t))
     lines.append("].\n")
     return "\n".join(lines), t, extras
+
+
+# ---------------------------------------------------------------- safe_pow (literal base / literal exponent)
+def pow_literals(k, s):
+    """(bases, exponents) exported for the integer type (k bytes, signed).  Mirrored by TieModels.pow_bases/pow_exps."""
+    bits = 8 * k
+    lo, hi = (-(2**(bits - 1)), 2**(bits - 1) - 1) if s else (0, 2**bits - 1)
+    V = bits - (1 if s else 0)
+    h = 2**(bits // 2)
+    bases, exps = [], []
+    for a in [-1, 0, 1, 2, 3, 7, 10, 16, 20, 255, 256, 257, -2, -3, -7, -10, -20, lo, hi, h, h + 1, h - 1, -h]:
+        if lo <= a <= hi and a not in bases:
+            bases.append(a)
+    for b in [0, 1, 2, 3, 4, 5, 7, 8, 16, 31, 32, 64, 127, 128, V - 1, V]:
+        if 0 <= b <= V and b <= hi and b not in exps:
+            exps.append(b)
+    return bases, exps
+
+
+def pow_templates(kind):
+    """-> [(0, ty, a, r, 0, template)] for literal bases and [(1, ty, b, lo, hi, template)] for literal exponents;
+    r / (lo, hi) are what the REAL calculate_largest_power / calculate_largest_base return."""
+    from vyper.codegen import arithmetic as A
+    from vyper.codegen.ir_node import IRnode
+    from vyper.codegen_venom import arithmetic as V
+    from vyper.venom.basicblock import IRLiteral
+    out = []
+    with settings_ctx():
+        for k, s, d, T in num_types():
+            if d:
+                continue
+            bits = 8 * k
+            bases, exps = pow_literals(k, s)
+            x = IRnode.from_list("x", typ=T)
+            y = IRnode.from_list("y", typ=T)
+            for a in bases:
+                r = 0 if a in (-1, 0, 1) else A.calculate_largest_power(a, bits, s)
+                if kind == "legacy":
+                    t = A.safe_pow(IRnode.from_list(a, typ=T), y)
+                else:
+                    ins, res, _, _ = venom_record(lambda b, px, py: V.safe_pow(b, IRLiteral(a), py, T, base_literal=a))
+                    t = (ins, res)
+                out.append((0, (k, s, False), a, r, 0, t))
+            for e in exps:
+                lo, hi = (0, 0) if e in (0, 1) else A.calculate_largest_base(e, bits, s)
+                if kind == "legacy":
+                    t = A.safe_pow(x, IRnode.from_list(e, typ=T))
+                else:
+                    ins, res, _, _ = venom_record(lambda b, px, py: V.safe_pow(b, px, IRLiteral(e), T, exp_literal=e))
+                    t = (ins, res)
+                out.append((1, (k, s, False), e, lo, hi, t))
+    return out
+
+
+def gen_pow(kind):
+    t = pow_templates(kind)
+    name = "legacy_pows" if kind == "legacy" else "venom_pows"
+    ty = "lir" if kind == "legacy" else "vtemplate"
+    term = lir_term if kind == "legacy" else (lambda n: vtemplate_term(*n))
+    lines = [HEADER, f"Definition {name} : list (Z * nty * Z * Z * Z * {ty}) := ["]
+    lines.append(";\n".join(f"  ({kd}, {nty(*tyk)}, {zl(l)}, {zl(p1)}, {zl(p2)}, {term(n)})" for kd, tyk, l, p1, p2, n in t))
+    lines.append("].\n")
+    return "\n".join(lines), t
